@@ -18,7 +18,7 @@ pub mod n6 {
     //@ include ../prelude/wire.rs
 }
 
-//@ include u1_lib.tpl M=verify
+//@ include u1_lib.tpl M=verify VFUNC=true
 
 pub mod length {
     use super::encoding::{Default, Encoding};
@@ -32,7 +32,7 @@ pub mod encoding {
     use super::*;
     use super::n6::*;
     use super::vlemmas::*;
-    //@ include u1_encoding.tpl M=verify
+    //@ include u1_encoding.tpl M=verify FUNC=E::functional()~&&~TE::functional() TSI=ensures~final(self)@~==~old(self)@.insert(t),~r~==~!old(self)@.contains(t), TSR=ensures~final(self)@~==~old(self)@.remove(*t),~r~==~old(self)@.contains(*t),
 }
 
 //@ tag canary
